@@ -16,8 +16,7 @@ fn accepted_steps_are_reported_intervals() {
                 let sol = solve_ivp(&Decay, a, b, &[1.0], opts).unwrap();
                 assert_eq!(sol.naccpt, sol.t.len() - 1, "{:?} [{}, {}]", method, a, b);
                 let last = *sol.t.last().unwrap();
-                let past = if b > a { last > b } else { last < b };
-                assert!(!past && (last - b).abs() <= 4.0 * f64::EPSILON * b.abs(), "{:?} [{}, {}]: last sample {}", method, a, b, last);
+                assert!((last - b).abs() <= 4.0 * f64::EPSILON * b.abs(), "{:?} [{}, {}]: last sample {}", method, a, b, last);
             }
         }
     }
